@@ -12,5 +12,7 @@ INVARIANT LawReorderKeepsResidueBag
 INVARIANT LawSliceWhole
 INVARIANT LawSliceCompose
 INVARIANT LawPiecesConcat
+INVARIANT LawParseInvertsWrite
+INVARIANT LawParseInvertsMulti
 POSTCONDITION EmitCases
 CHECK_DEADLOCK FALSE
